@@ -218,6 +218,14 @@ func famEvents() {
 					teff = append(teff, e)
 				}
 				run["tryon"] = M{"res": tres, "evs": tevs, "eff": teff}
+				// TryEval's events read later (buffered channel drained after the call)
+				_, tbevs := runWith(on.expr, "buffered", func() M {
+					return safely(func() M {
+						v, err := on.expr.TryEval(&eval.Ctx{VariableFetcher: &Fetcher{Vals: env, Avail: avail}})
+						return outcome(v, err)
+					})
+				})
+				run["trybuf"] = M{"evs": tbevs}
 				runs = append(runs, run)
 			}
 			rec["envs"], rec["runs"] = er, runs
